@@ -10,6 +10,7 @@ import (
 	"fmt"
 	"hash/fnv"
 	"math/rand"
+	"os"
 	"runtime/debug"
 	"strings"
 	"time"
@@ -181,7 +182,7 @@ func TopRepoFrame(stack string) string {
 	for i := 0; i+1 < len(lines); i++ {
 		fn := lines[i]
 		loc := strings.TrimSpace(lines[i+1])
-		if strings.HasPrefix(loc, "/repo/") {
+		if strings.HasPrefix(loc, repoPrefix()) {
 			if p := strings.LastIndex(fn, "("); p > 0 {
 				fn = fn[:p]
 			}
@@ -192,6 +193,14 @@ func TopRepoFrame(stack string) string {
 		}
 	}
 	return "unknown"
+}
+
+// repoPrefix is the path prefix of frames of the code under test (/repo/, or a scratch copy named by VERIF_REPO).
+func repoPrefix() string {
+	if v := os.Getenv("VERIF_REPO"); v != "" {
+		return strings.TrimRight(v, "/") + "/"
+	}
+	return "/repo/"
 }
 
 func trimStack(st string) string {
